@@ -208,7 +208,7 @@ struct broker {
         if (!hold.count(kind)) answer(obl.size() - 1, nullptr);
     }
 
-    struct ack_override { int rc = -1; std::vector<int> codes; bool has_codes = false; ref::props_t props; int shortform = 0; };
+    struct ack_override { int rc = -1; int rcx = -1; std::vector<int> codes; bool has_codes = false; ref::props_t props; int shortform = 0; };
 
     void log_send(int c, const ref::packet& pk, int ans, const std::string& msg) {
         std::vector<int> codes(pk.codes.begin(), pk.codes.end());
@@ -237,6 +237,11 @@ struct broker {
         int shortform = 0;
         if (ov) {
             if (ov->rc >= 0) pk.rc = ov->rc;
+            // rcx: a reason code for whatever acknowledgement this obligation turns out to be, used only where MQTT admits it there
+            if (ov->rcx >= 0 && (o.kind == ref::PUBACK || o.kind == ref::PUBREC || o.kind == ref::PUBCOMP)) {
+                ref::packet probe; probe.type = (uint8_t) o.kind; probe.rc = ov->rcx;
+                if (server_may_send(probe, true)) pk.rc = ov->rcx;
+            }
             if (ov->has_codes) { pk.codes.clear(); for (int c : ov->codes) pk.codes.push_back((uint8_t) c); }
             pk.props = ov->props; shortform = ov->shortform;
         }
